@@ -65,6 +65,20 @@ def scope_cases(ctx):
         members = [{"type": "object", "title": t, "properties": {"p%d" % i: {"type": "string"}}} for i, t in enumerate(labels)]
         for kw in ("oneOf", "anyOf"):
             out.append({"op": "naming.scopes", "in": {"kind": "union-labels", "spec": spec_with({"Root": {kw: members}}), "cfg": {"all_schemas": True}, "mode": "client-mod", "expect_variants": {"Root": len(labels)}}})
+    # variants of a discriminated base are named after its children with the base's name stripped, plus a fall-back variant
+    # named after the base's last word: `BillingEvent` + child `Event`; `Pet` + children `Cat`, `PetCat`
+    R = "#/components/schemas/"
+    for base, kids in (("BillingEvent", ["Event", "Other"]), ("Pet", ["Cat", "PetCat"]), ("Pet", ["Cat", "Dog"])):
+        sch = {base: {"type": "object", "required": ["kind"], "properties": {"kind": {"type": "string"}, "name": {"type": "string"}},
+                      "discriminator": {"propertyName": "kind", "mapping": {k.lower(): R + k for k in kids}}}}
+        for i, k in enumerate(kids):
+            sch[k] = {"allOf": [{"$ref": R + base}, {"type": "object", "properties": {"p%d" % i: {"type": "string"}}}]}
+        sch["Root"] = {"type": "object", "properties": {"b": {"$ref": R + base}}}
+        out.append({"op": "naming.scopes", "in": {"kind": "disc-variants", "spec": spec_with(sch), "cfg": {"all_schemas": True}, "mode": "client-mod", "expect_variants": {base: len(kids) + 1}}})
+    # a property spelled like the member the generator adds for typed additionalProperties
+    for pn in ("additional_properties", "additionalProperties"):
+        out.append({"op": "naming.scopes", "in": {"kind": "props-addl", "spec": spec_with({"Root": {"type": "object", "properties": {pn: {"type": "string"}, "x": {"type": "string"}}, "additionalProperties": {"type": "integer"}}}),
+                                                  "cfg": {"all_schemas": True}, "mode": "client-mod", "expect_fields": {"Root": 3}}})
     return out
 
 
